@@ -26,6 +26,9 @@ DOC_C = "Third *file*.   Short.\n"
 
 
 def classify(kf, rec):
+    c = rec["case"]
+    if kf.get("classifier") == "input-is-another-inputs-backup-path":
+        return bool(c.get("aliasing"))
     return False
 
 
@@ -43,6 +46,7 @@ SCENARIOS = [
     {"name": "inplace-backup", "files": {"a.md": DOC_A}, "argv": ["-i", "a.md"], "targets": ["a.md"], "backup": True},
     {"name": "inplace-nobackup", "files": {"a.md": DOC_A}, "argv": ["-i", "--nobackup", "a.md"], "targets": ["a.md"], "backup": False},
     {"name": "auto", "files": {"a.md": DOC_A}, "argv": ["--auto", "a.md"], "targets": ["a.md"], "backup": False},
+    {"name": "inplace-crlf", "files": {"a.md": DOC_A.replace("\n", "\r\n")}, "argv": ["-i", "a.md"], "targets": ["a.md"], "backup": True},
     {"name": "inplace-backup-existing-orig", "files": {"a.md": DOC_A, "a.md.orig": "older backup\n"}, "argv": ["-i", "a.md"], "targets": ["a.md"], "backup": True},
     {"name": "multi-nobackup", "files": {"a.md": DOC_A, "b.md": DOC_B, "c.md": DOC_C}, "argv": ["-i", "--nobackup", "a.md", "b.md", "c.md"],
      "targets": ["a.md", "b.md", "c.md"], "backup": False},
@@ -184,7 +188,7 @@ def snapshot(d: Path):
     res = {}
     for p in sorted(d.rglob("*")):
         if p.is_file():
-            res[str(p.relative_to(d))] = p.read_text(errors="replace")
+            res[str(p.relative_to(d))] = p.read_bytes().decode("utf-8", "replace")      # bytes as they are: no newline translation
     return res
 
 
@@ -234,7 +238,7 @@ def run(chk: Check) -> None:
                        "after the first write-open of the run; distinct by (scenario, syscall ordinal, fault kind)")
     if not chk.phase_build("Props/C14.v"):
         return
-    scen = SCENARIOS if tier == "thorough" else SCENARIOS[:8]
+    scen = SCENARIOS if tier == "thorough" else SCENARIOS[:9]
     nbad = 0
     traces_ok = 0
     for sc in scen:
@@ -290,6 +294,56 @@ def run(chk: Check) -> None:
                     chk.fail("property", {"scenario": sc["name"], "argv": sc["argv"], "inject": inj},
                              "a failing operation was reported as success (exit 0) although a target is not new", classify)
         shutil.rmtree(SCRATCH / sc["name"], ignore_errors=True)
+    # ---- a write that is cut short: the process may not write files larger than L bytes (RLIMIT_FSIZE), for several L below the
+    # size of the new content: the first write returns a short count, the next one fails (real kernel behaviour, no injection) ----
+    import resource
+    nlim = 0
+    for sc in scen:
+        if not sc["targets"] or sc["name"] == "big-file" and tier == "quick":
+            continue
+        d = SCRATCH / (sc["name"] + "-fsize") / "w"
+        setup_dir(d, sc["files"])
+        before = snapshot(d)
+        news = {}
+        for t in sc["targets"]:
+            srcname = t if t in sc["files"] else sc.get("src", [t])[0]
+            news[t] = fmt(sc["files"][srcname], sc["argv"])
+        smallest = min(len(v.encode()) for v in news.values())
+        for lim in sorted({0, 1, smallest // 2, smallest - 1}):
+            setup_dir(d, sc["files"])
+
+            def limit(lim=lim):
+                resource.setrlimit(resource.RLIMIT_FSIZE, (lim, lim))
+            p3 = subprocess.run([PY, "-m", "flowmark.cli"] + sc["argv"], cwd=d, env=ENV, input=sc.get("stdin"), text=True,
+                                stdout=subprocess.PIPE, stderr=subprocess.PIPE, timeout=120, preexec_fn=limit)
+            after3 = snapshot(d)
+            chk.count()
+            nlim += 1
+            chk.hist("fault_kind", "file size limit")
+            chk.nontrivial((sc["name"], "fsize", lim))
+            nbad += judge(chk, sc, news, before, after3, f"file size limit {lim} bytes", p3.returncode, {"rlimit_fsize": lim})
+            if p3.returncode == 0 and any(after3.get(t) != news[t] for t in sc["targets"]):
+                nbad += 1
+                chk.fail("property", {"scenario": sc["name"], "argv": sc["argv"], "rlimit_fsize": lim, "observed": {t: after3.get(t) for t in sc["targets"]}},
+                         "a write that was cut short was reported as success (exit 0) although a target is not new", classify)
+        shutil.rmtree(SCRATCH / (sc["name"] + "-fsize"), ignore_errors=True)
+    chk.port_stat("file size limit (short write) runs", nlim, 0)
+    # ---- inputs that alias each other through the backup name (finding D-81) ----
+    for name, files, argv, expect in [
+        ("backup-name-is-an-input", {"a.md": "A   original\n", "a.md.orig": "PRECIOUS   other content\n"}, ["-i", "a.md", "a.md.orig"],
+         {"a.md": "A original\n", "a.md.orig": "PRECIOUS other content\n", "a.md.orig.orig": "PRECIOUS   other content\n"}),
+        ("same-input-twice", {"a.md": "A   original\n"}, ["-i", "a.md", "a.md"], {"a.md": "A original\n", "a.md.orig": "A   original\n"}),
+    ]:
+        d = SCRATCH / name / "w"
+        setup_dir(d, files)
+        p4 = run_cli(d, argv, trace=d.parent / "t.txt")
+        after4 = snapshot(d)
+        chk.count()
+        wrong = {k: after4.get(k) for k, v in expect.items() if after4.get(k) != v}
+        if wrong:
+            chk.fail("property", {"scenario": name, "argv": argv, "files": files, "observed": after4, "expected": expect, "aliasing": True, "exit": p4.returncode},
+                     f"in-place run with backups: {sorted(wrong)} hold neither 'formatted' nor a recoverable old content", classify)
+        shutil.rmtree(SCRATCH / name, ignore_errors=True)
     # failure before any write: unreadable / undecodable input
     d = SCRATCH / "badinput" / "w"
     setup_dir(d, {"a.md": DOC_A})
